@@ -110,8 +110,19 @@ async def diff_case(ctx, case: dict) -> None:
         if op[0] == "rx":
             parsed = split_line(op[1])
             is_hb = bool(parsed and parsed[2] == 3 and parsed[4] == spec.I_HEARTBEAT_RESPONSE)
+        sleeping_before = {nid: node.sleeping for nid, node in g2.nodes.items()} if (straddle and is_hb) else {}
         o2 = await apply(g2, t2, s2, op)
         w1, w2 = t1.take_writes(), t2.take_writes()
+        if straddle and is_hb and o2[0] == "yield":
+            # the stated exception itself: in 2.2 the heartbeat response neither marks the node sleeping nor releases
+            ctx.clause("heartbeat-is-no-wake-in-2.2")
+            released = [w for w in w2 if (split_line(w) or (0, 0, -1))[2] == 1]
+            changed = [nid for nid, node in g2.nodes.items() if node.sleeping != sleeping_before.get(nid, node.sleeping)]
+            if released or changed:
+                ctx.violation("heartbeat-acts-as-wake-in-2.2",
+                              f"{older} vs {newer} step {index} {op!r:.60}: under 2.2 the heartbeat response released {released} "
+                              f"/ changed the sleeping flag of {changed}", case)
+                break
         if straddle and is_hb and o1[0] == "yield" and o2[0] == "yield":
             # translation: 22 in 2.0/2.1 == 22 then 32 in 2.2 (the extra yield is ignored)
             parsed = split_line(op[1])
